@@ -6,6 +6,7 @@ import (
 	"fmt"
 	"strconv"
 	"strings"
+	"time"
 
 	"github.com/coreos/etcd/raft/raftpb"
 	"github.com/meshplus/bitxhub/pkg/order/etcdraft"
@@ -49,6 +50,20 @@ func (e *orderEngine) step(ws []string) string {
 	case "reset":
 		e.close()
 		return "ok"
+	case "livefollower": // livefollower delay=<ms>: a real Node (NewNode + Start) as follower of a scripted leader; see zz_verif_live.go
+		o := kv(ws[1:])
+		ms, _ := strconv.ParseUint(o["delay"], 10, 64)
+		dir := mustTempDir("bxhverif-live-")
+		defer rmDir(dir)
+		r, err := etcdraft.VerifLiveFollower(dir, time.Duration(ms)*time.Millisecond, quietLogger)
+		if err != nil {
+			return "err " + err.Error()
+		}
+		early := 0
+		if r.Early {
+			early = 1
+		}
+		return fmt.Sprintf("acked=%d early=%d delivered=%d", r.Acked, early, r.Delivered)
 	case "raft": // raft new lastExec=<n> snapcount=<n>
 		e.close()
 		o := kv(ws[2:])
